@@ -44,7 +44,7 @@ mutual
       mergeInto A (eraseList ks) = A ++ eraseList ks
     | [], A, _, _, _ => by simp [eraseList, mergeInto]
     | k :: ks, A, hv, hna, hj => by
-      obtain ⟨h1, h2⟩ := validList_cons true k ks hv
+      obtain ⟨h1, h2⟩ := fc_validList_cons true k ks hv
       simp only [eraseList, mergeInto]
       rw [mergeAdjacentText_strict k h1]
       rw [snocMerge_plain A (erase k) (by
